@@ -124,7 +124,7 @@ bool solver_t::done(solver_state_t& state, const bool iter_ok, const bool conver
     if (const auto step_ok = iter_ok && state.valid(); converged || !step_ok)
     {
         // either converged or failed
-        state.status((converged && state.valid()) ? solver_status::converged : solver_status::failed);
+        state.status((converged && step_ok) ? solver_status::converged : solver_status::failed);
         logger.info("[solver-", type_id(), "]: ", state, ".\n");
         NANO_VERIF_EVENT(::nano::verif::ev_solver_exit, &state, 1U);
         return true;
